@@ -95,6 +95,9 @@ class _Continue(Exception):
     pass
 
 
+_FOR_FILE_CACHE = {}
+
+
 class _GenDone(Exception):
     pass
 
@@ -135,8 +138,10 @@ class GeneratorObj:
         if self.thread is None:
             self.thread = self._threading.Thread(target=self._run, daemon=True)
             self.thread.start()
+        mine = self.interp.module
         self.to_producer.put('go')
         kind, val = self.to_consumer.get()
+        self.interp.module = mine
         if kind == 'value':
             return val
         self.finished = True
@@ -193,6 +198,7 @@ class Interp:
         self.stubs.update(stubs or {})
         self.methods = methods or {}  # kind -> {method name: FunctionDef}: methods of the analysed class, interpreted when a stand-in is asked for them
         self._gen_stack = []
+        self.fn_module = {}           # id(FunctionDef) -> ast.Module it is written in
         self.module = None            # ast.Module of the analysed code: its top-level constants and functions resolve free names
         self.src = None               # SourceSet: lets `from mindsdb_sql.x import f` in that module resolve to f's source
         self.steps = 0
@@ -222,26 +228,40 @@ class Interp:
     def for_file(cls, src, relpath, isa=None, stubs=None, also=(), methods=None, **kw):
         """an interpreter for code of one file of the repository: module-level names (and what they import from mindsdb_sql), the methods and
         class-level constants of every class of the file (and of the files in `also`) are resolved from the source"""
-        ms, bases = {}, {}
-        for f in tuple(also) + (relpath,):
-            for st in src.tree(f).body:
-                if isinstance(st, ast.ClassDef):
-                    ms[st.name] = class_members(st)
-                    bases[st.name] = [b.id if isinstance(b, ast.Name) else b.attr for b in st.bases if isinstance(b, (ast.Name, ast.Attribute))]
-        # members inherited from base classes defined in the same files (nearest definition wins)
-        for name in list(ms):
-            seen, todo = {name}, list(bases.get(name, []))
-            while todo:
-                b = todo.pop(0)
-                if b in seen or b not in ms:
-                    continue
-                seen.add(b)
-                for k, v in class_members_of(src, f, b, ms).items():
-                    ms[name].setdefault(k, v)
-                todo.extend(bases.get(b, []))
+        key = (id(src), relpath, tuple(also))
+        cached = _FOR_FILE_CACHE.get(key)
+        if cached is None:
+            ms, bases, fnmod = {}, {}, {}
+            for f in tuple(also) + (relpath,):
+                t = src.tree(f)
+                for st in t.body:
+                    if isinstance(st, ast.ClassDef):
+                        ms[st.name] = class_members(st)
+                        bases[st.name] = [b.id if isinstance(b, ast.Name) else b.attr for b in st.bases if isinstance(b, (ast.Name, ast.Attribute))]
+                for n in ast.walk(t):
+                    if isinstance(n, ast.FunctionDef):
+                        fnmod[id(n)] = t
+                    elif isinstance(n, ast.ClassDef):
+                        for v in class_members(n).values():
+                            if not isinstance(v, ast.FunctionDef):
+                                fnmod[id(v)] = t
+            # members inherited from base classes defined in the same files (nearest definition wins)
+            for name in list(ms):
+                seen, todo = {name}, list(bases.get(name, []))
+                while todo:
+                    b = todo.pop(0)
+                    if b in seen or b not in ms:
+                        continue
+                    seen.add(b)
+                    for k, v in ms[b].items():
+                        ms[name].setdefault(k, v)
+                    todo.extend(bases.get(b, []))
+            cached = _FOR_FILE_CACHE[key] = (ms, fnmod, src)       # src is kept alive so that id(src) stays unique
+        ms = dict(cached[0])
         ms.update(methods or {})
         it = cls(isa or {}, stubs or {}, methods=ms, **kw)
         it.module, it.src = src.tree(relpath), src
+        it.fn_module = dict(cached[1])
         return it
 
     def call_function(self, fn, args, kwargs, outer_env, _as_generator_body=False):
@@ -268,10 +288,17 @@ class Interp:
                     env.set(k, kwargs.pop(k))
             if kwargs:
                 raise AnalysisError(f'interpreter: unexpected keyword arguments {sorted(kwargs)} calling {fn.name}')
+        # free names of a function are those of the module it is written in
+        saved = self.module
+        mod = self.fn_module.get(id(fn))
+        if mod is not None:
+            self.module = mod
         try:
             self.block(fn.body, env)
         except _Return as r:
             return r.value
+        finally:
+            self.module = saved
         return None
 
     # ---- statements -----------------------------------------------------------------------------------------------------
@@ -445,7 +472,12 @@ class Interp:
             g_ = self._global(e.id)
             if g_ is not None:
                 if g_[0] == 'value':
-                    return self.ev(g_[1], Env())
+                    saved = self.module
+                    self.module = g_[2]
+                    try:
+                        return self.ev(g_[1], Env())
+                    finally:
+                        self.module = saved
                 return Closure(g_[1], Env(), self)
             if e.id[:1].isupper() or e.id in ('ast', 'sa', 're', 'copy', 'utils', 'steps', 'dt', 'datetime', 'textwrap') or e.id in {k.split('.')[0] for k in self.stubs}:
                 return ClassRef(e.id)       # a class / module of the repository: only used as callee or in isinstance
@@ -549,16 +581,20 @@ class Interp:
             if not self._gen_stack:
                 raise AnalysisError('interpreter: yield outside a generator')
             g = self._gen_stack[-1]
+            mine = self.module
             g.to_consumer.put(('value', self.ev(e.value, env) if e.value is not None else None))
             g.to_producer.get()
+            self.module = mine
             return None
         if isinstance(e, ast.YieldFrom):
             if not self._gen_stack:
                 raise AnalysisError('interpreter: yield outside a generator')
             g = self._gen_stack[-1]
+            mine = self.module
             for x in self.ev(e.value, env):
                 g.to_consumer.put(('value', x))
                 g.to_producer.get()
+                self.module = mine
             return None
         if isinstance(e, ast.Lambda):
             fn = ast.FunctionDef(name='<lambda>', args=e.args, body=[ast.Return(value=e.body, lineno=e.lineno, col_offset=0)], decorator_list=[],
@@ -572,7 +608,7 @@ class Interp:
         if isinstance(base, ClassRef) and attr in self.methods.get(base.name, {}):
             m = self.methods[base.name][attr]
             if not isinstance(m, ast.FunctionDef):
-                return self.ev(m, Env())          # a class-level constant
+                return self._ev_in_module(m)          # a class-level constant
             decos = {norm(x) for x in m.decorator_list}
             if 'classmethod' in decos:
                 return lambda *a, **k: self.call_function(m, [base] + list(a), dict(k), Env())
@@ -588,7 +624,7 @@ class Interp:
                 return ClassRef(base.kind)
             m = self.methods.get(base.kind, {}).get(attr)
             if m is not None and not isinstance(m, ast.FunctionDef):
-                return self.ev(m, Env())          # a class-level constant
+                return self._ev_in_module(m)          # a class-level constant
             if m is not None:
                 decos = {norm(x) for x in m.decorator_list}
                 if 'staticmethod' in decos:
@@ -609,6 +645,16 @@ class Interp:
             return base[attr]
         return BoundMethod(base, attr)
 
+    def _ev_in_module(self, expr):
+        saved = self.module
+        mod = self.fn_module.get(id(expr))
+        if mod is not None:
+            self.module = mod
+        try:
+            return self.ev(expr, Env())
+        finally:
+            self.module = saved
+
     def _global(self, name, module=None, depth=0):
         """definition of a module-level name: ('func', FunctionDef, module) / ('value', expr, module) / None; follows `from mindsdb_sql... import name`"""
         module = module or self.module
@@ -616,6 +662,10 @@ class Interp:
             return None
         for st in module.body:
             if isinstance(st, ast.FunctionDef) and st.name == name:
+                if id(st) not in self.fn_module:
+                    for n in ast.walk(st):
+                        if isinstance(n, ast.FunctionDef):
+                            self.fn_module[id(n)] = module
                 return ('func', st, module)
             if isinstance(st, ast.Assign) and any(isinstance(t, ast.Name) and t.id == name for t in st.targets):
                 return ('value', st.value, module)
@@ -842,10 +892,6 @@ def _own_nodes(fn):
         for c in ast.iter_child_nodes(n):
             if not isinstance(c, (ast.FunctionDef, ast.ClassDef, ast.Lambda)):
                 stack.append(c)
-
-
-def class_members_of(src, f, name, ms):
-    return ms.get(name, {})
 
 
 def class_members(cls):
